@@ -36,6 +36,18 @@ def ovf_xml(spec: dict, prolog: str = "") -> str:
         ns.append(f'xmlns:{ap}="{OVF_NS}"')
     ns.append(f'xmlns:{rp}="{RASD_NS}"')
     ns.append(f'xmlns:vssd="{VSSD_NS}"')
+    # extension attributes from other namespaces on File / Disk elements (the schema allows any), whose local names equal the
+    # OVF ones; written before or after them
+    fa = spec.get("foreign_attrs")
+    if fa:
+        ns.append('xmlns:vmw="http://www.vmware.com/schema/ovf"')
+        ns.append('xmlns:xlink="http://www.w3.org/1999/xlink"')
+
+    def foreign(own: str, extra: str) -> str:
+        if not fa:
+            return own
+        return f"{extra} {own}" if fa == "before" else f"{own} {extra}"
+
     out = ['<?xml version="1.0" encoding="UTF-8"?>']
     if prolog:
         out.append(prolog)
@@ -44,12 +56,14 @@ def ovf_xml(spec: dict, prolog: str = "") -> str:
         out.append("  <!-- generated -->")
     out.append(f"  <{el('References')}>")
     for fid, href in spec["files"]:
-        out.append(f"    <{el('File')} {at('id', fid)} {at('href', href)}/>")
+        own = f"{at('id', fid)} {at('href', href)}"
+        out.append(f"    <{el('File')} {foreign(own, 'xml:id=' + quoteattr('x' + str(len(out))) + ' xlink:href=' + quoteattr('https://example.invalid/' + str(len(out))))}/>")
     out.append(f"  </{el('References')}>")
     out.append(f"  <{el('DiskSection')}>")
     out.append(f"    <{el('Info')}>disks</{el('Info')}>")
     for did, fref in spec["disks"]:
-        out.append(f"    <{el('Disk')} {at('capacity', '1024')} {at('diskId', did)} {at('fileRef', fref)}/>")
+        own = f"{at('capacity', '1024')} {at('diskId', did)} {at('fileRef', fref)}"
+        out.append(f"    <{el('Disk')} {foreign(own, 'vmw:diskId=' + quoteattr('vendor-' + str(len(out))) + ' vmw:fileRef=' + quoteattr('vendor-file'))}/>")
     out.append(f"  </{el('DiskSection')}>")
     vs_ns = f' xmlns:{rp}2="{RASD_NS}"' if spec.get("redundant_ns") else ""
     out.append(f"  <{el('VirtualSystem')} {at('id', 'vm')}{vs_ns}>")
